@@ -32,7 +32,10 @@ SeqP(min, max, ps) == [k |-> "seq", min |-> min, max |-> max, ps |-> ps]
 Space == {x \in {[ptype |-> a, pref |-> b, pbase |-> d, order |-> o, locals |-> lo, bname |-> bn, farfwd |-> ff, rec |-> r, dflt |-> df, two |-> tw] :
             a \in {"t", "o"}, b \in {"t", "o", "none"}, d \in {"t", "o", "none"},
             o \in {"users_first", "users_last"}, lo \in {"none", "first", "last"}, bn \in BOOLEAN, ff \in BOOLEAN, r \in BOOLEAN,
-            df \in BOOLEAN, tw \in BOOLEAN} :
+            df \in BOOLEAN, tw \in BOOLEAN} \cup
+          \* selfext: the near Thing EXTENDS the far Thing - a type and its base share their local name
+          {[ptype |-> a, pref |-> "none", pbase |-> d, order |-> o, locals |-> "none", bname |-> FALSE, farfwd |-> ff, rec |-> FALSE, dflt |-> FALSE, two |-> FALSE, selfext |-> TRUE] :
+            a \in {"t", "o"}, d \in {"t", "o", "none"}, o \in {"users_first", "users_last"}, ff \in BOOLEAN} :
             /\ x.dflt => (~x.bname /\ x.locals = "none")
             /\ x.two => (x.pbase # "none" /\ ~x.rec /\ ~x.bname /\ x.locals = "none")}
 \* how a reference to the near namespace is written
@@ -60,7 +63,9 @@ DerivedNear(x) == [k |-> "complex", n |-> "DerivedNear", base |-> T(P(x, "t"), "
 DerivedUser(x) == [k |-> "complex", n |-> "DerivedUser", base |-> T(P(x, x.pbase), "Thing"),
                    content |-> << SeqP(1, "1", << El("ownMark", B("string"), 1, "1") >>) >>, attrs |-> <<>>]
 Users(x) == <<UserType(x)>> \o (IF x.two THEN <<DerivedNear(x)>> ELSE <<>>) \o (IF x.pbase = "none" THEN <<>> ELSE <<DerivedUser(x)>>)
-Decls(x) == <<ThingElem("t"), IF x.rec THEN RecThing ELSE ThingType("nearMark")>> \o (IF x.bname THEN <<DateType>> ELSE <<>>)
+SelfExt(x) == "selfext" \in DOMAIN x
+ThingExt == [k |-> "complex", n |-> "Thing", base |-> T("o", "Thing"), content |-> << SeqP(1, "1", << El("nearMark", B("string"), 1, "1") >>) >>, attrs |-> <<>>]
+Decls(x) == <<ThingElem("t"), IF SelfExt(x) THEN ThingExt ELSE IF x.rec THEN RecThing ELSE ThingType("nearMark")>> \o (IF x.bname THEN <<DateType>> ELSE <<>>)
             \o (IF x.rec THEN <<ThingKid>> ELSE <<>>)
 
 File1(x) == [name |-> "f1.xsd", kind |-> "xsd", tns |-> "Unear",
@@ -81,7 +86,7 @@ MCSpec == MCInit /\ [][UNCHANGED c]_vars
 \* C09 at design level: every reference of the referring types is bound to the component Resolve names
 Agreement ==
   (Dev = {}) => LET S == SetOf(c) IN
-     \A t \in {t \in TypesOf(S) : t.n \in {"UserType", "DerivedUser", "DerivedNear", "FarUser"}} :
+     \A t \in {t \in TypesOf(S) : t.n \in {"UserType", "DerivedUser", "DerivedNear", "FarUser", "Thing"}} :
         LET f == FileNamed(S, t.f) IN
         /\ ~Dropped(S, t, {})
         /\ FieldViol(ExpFields(S, f, t.it, t.it), BuiltFields(S, f, t.it, t.it, 8, {})) = {}
